@@ -55,6 +55,12 @@ def check(tier):
     cfg3 = e1.Config(PROP, full, 3, [], [oracles.c03_events], split=1)
     e1.run(cfg3, rep3)
     _fold(rep, rep3, "fullclass")
+    # call-argument order and same-named globals of two modules (the callee / argument must be the object the VM used)
+    rep4 = Report(PROP, tier)
+    argorder = alphabet("MARK K1 STR TUPLE ETUP OBJ REDUCE POP".split(), [G("m", "X"), G("m2", "X"), INST("m", "X")])
+    cfg4 = e1.Config(PROP, argorder, depth + 1, [], [oracles.c03_events], split=2)
+    e1.run(cfg4, rep4)
+    _fold(rep, rep4, "argorder")
     from . import c03_corpus
 
     c03_corpus.run(rep, tier)
